@@ -32,7 +32,7 @@ UNITS = {
 PROP_UNITS = {
     "C01": [("state", ()), ("handle", ()), ("swrite", ()), ("collide", ())],
     "C02": [("spec", TF), ("logger", TF), ("handle_c", TF), ("handle_d", TF), ("lbuild", ()), ("specbuilder", TF)],
-    "C04": [("state", ()), ("handle", ()), ("flw", ()), ("primary", ()), ("dispatch", ("async",)), ("stdw", ("async",)), ("lh", TF), ("lbuild", ())],
+    "C04": [("state", ()), ("handle", ()), ("flw", ()), ("primary", ()), ("dispatch", ("async",)), ("stdw", ("async",)), ("lh", TF), ("lbuild", ()), ("handle_async", ("async",))],
     "C05": [("handle_a", TF), ("handle_b", TF), ("handle_b2", TF), ("handle_c", TF), ("spec", TF), ("lbuild", ())],
     "C06": [("state", ()), ("timestamps", ()), ("builder", ()), ("collide", ()), ("latest", ())],
     "C07": [("state", ()), ("listing", ()), ("cleanup", ()), ("collide", ())],
